@@ -18,6 +18,8 @@
 (*   close res wakes | create_stream | stream_next w res v taken           *)
 (*   drop_stream taken wakes | clone_sender | drop_sender wakes            *)
 (*   clone_receiver | drop_receiver wakes | destroy | wake w               *)
+(*   dec_sender | dec_receiver | late_close wakes | late_clear   (the      *)
+(*   three separately scheduled steps of a last-handle drop)               *)
 (* res: ok err pending some none empty full closed newly already panic     *)
 (***************************************************************************)
 EXTENDS Common
@@ -78,11 +80,12 @@ QueueCheck(e, SA, RA) ==
 (* the slot a receive-like event talks about *)
 RSlot(e) == IF e.op \in {"create_stream", "stream_next", "drop_stream"} THEN XR ELSE e.r
 IsRecv(e) == e.op \in {"poll_recv", "try_recv", "stream_next"}
-ClosesNow(e) == \/ e.op = "close"
+ClosesNow(e) == \/ e.op \in {"close", "late_close"}
                 \/ (e.op = "drop_sender" /\ oSenders = 1)
                 \/ (e.op \in {"drop_receiver"} /\ oReceivers = 1)
                 \/ (e.op = "drop_stream" /\ Shared /\ oReceivers = 1)
-ClearsNow(e) == \/ (e.op = "drop_receiver" /\ oReceivers = 1)
+ClearsNow(e) == \/ e.op = "late_clear"
+                \/ (e.op = "drop_receiver" /\ oReceivers = 1)
                 \/ (e.op = "drop_stream" /\ Shared /\ oReceivers = 1)
 
 StepBad(e, SA, RA, In, Ord, Cl) ==
@@ -198,10 +201,10 @@ ObsStep(e) ==
                 [] e.op = "drop_send" -> [SV EXCEPT ![e.s] = 0]
                 [] OTHER -> SV
   /\ oSenders' = CASE e.op = "clone_sender" -> oSenders + 1
-                   [] e.op = "drop_sender" -> oSenders - 1
+                   [] e.op \in {"drop_sender", "dec_sender"} -> oSenders - 1
                    [] OTHER -> oSenders
   /\ oReceivers' = CASE e.op = "clone_receiver" -> oReceivers + 1
-                     [] e.op = "drop_receiver" -> oReceivers - 1
+                     [] e.op \in {"drop_receiver", "dec_receiver"} -> oReceivers - 1
                      [] e.op = "create_stream" /\ Shared -> oReceivers + 1
                      [] e.op = "drop_stream" /\ Shared -> oReceivers - 1
                      [] OTHER -> oReceivers
